@@ -412,7 +412,9 @@ METHODS = ['_shift_settings_idx', 'ljust', 'rjust', 'center', 'assign_str',
            dict(py='__getitem__', lean='getItemCore', after_store='new_s._s', join=True,
                 entry=[('new_s', 'obj'), ('st', 'int'), ('en', 'int')]),
            dict(py='remove_formatting', lean='removeCore', after_store='if:ansi_settings', join=True,
-                entry=[('ansi_settings', 'optslist'), ('start', 'int'), ('end', 'int')])]
+                entry=[('ansi_settings', 'optslist'), ('start', 'int'), ('end', 'int')]),
+           dict(py='__iadd__', lean='iaddCore', after_store='ifany:incoming_fmts', join=True,
+                entry=[('incoming_str', 'str'), ('incoming_fmts', 'fmtitems')])]
 
 
 def generate_methods(repo):
@@ -433,5 +435,5 @@ def generate_methods(repo):
     L = ['/-  GENERATED by harness/translate.py (harness/pyobj.py) from the working tree of the repository — do not edit.',
          '    Methods of `class AnsiString` that read and write `_s` / `_fmts`, translated statement by statement. -/',
          'import AnsiModel.Obj', 'import AnsiModel.Replay', 'import AnsiModel.Generated.Wrappers', '', 'namespace Gen', '',
-         pyobj.translate(fns, METHODS, pfns, ifns, wa, have=('pointBool',)), 'end Gen', '']
+         pyobj.translate(fns, METHODS, pfns, ifns, wa, have=('pointBool', 'sameSettingReferences', 'findSettingsReferences')), 'end Gen', '']
     return '\n'.join(L)
